@@ -682,7 +682,7 @@ func boxStr(ne bool, b [4]float64) string {
 func init() {
 	register(&Rule{
 		ID:    "C06.reset",
-		Props: []string{"C06", "C10", "C08"},
+		Props: []string{"C06", "C10", "C08", "C04"},
 		Doc:   "decoding into an existing value replaces it: every UnmarshalJSON / Scan method with a pointer receiver assigns the whole destination (`*recv = decoded`) on every path to a nil-error return, and never hands the address of a field of the destination to a decoder — field-by-field assignment leaves fields of a previous document behind when a member is absent, and encoding/json merges into existing maps",
 		Floor: 10,
 		Run:   runC06Reset,
